@@ -3911,6 +3911,12 @@ class ScoreVariant(object):
             for o in o_new:
                 start = o.start
                 o.replace_refs(o_map)
+                # a fermata and the note it belongs to refer to each other
+                # outside the generic reference mechanism
+                if isinstance(o, Fermata) and isinstance(o.ref, TimedObject):
+                    o.ref = o_map.get(o.ref, None)
+                if isinstance(o, GenericNote) and o.fermata is not None:
+                    o.fermata = o_map.get(o.fermata, None)
                 if start is not None and o.start is None:
                     # assigning the start note of a slur takes the slur off
                     # the timeline: put the copy back
